@@ -36,7 +36,7 @@ theorem dictGet_dictSet_other (d : List (κ × ν)) (k k' : κ) (v : ν) (hne : 
     · have hk : k0 = k := by simpa using h
       subst hk
       have : (k0 == k') = false := by simpa using fun h => hne h.symm
-      simp [h, dictGet, this]
+      simp [dictGet, this]
     · have h' : (k0 == k) = false := by simpa using h
       simp only [h', Bool.false_eq_true, if_false, dictGet, ih]
 end dict
